@@ -146,6 +146,10 @@ fn camel_loose(s: &str) -> String {
             out.push(c);
         }
     }
+    if up && !out.is_empty() {
+        // a trailing dash has nothing to upper-case and is kept
+        out.push('-');
+    }
     if out.is_empty() {
         s.to_string()
     } else {
